@@ -51,8 +51,40 @@ static uint varMutate(void* p)
 }
 static uint varDrop(void* p) { delete (Variant*)p; return 0; }
 static uint varRead(void* p) { Variant* h = (Variant*)p; const Variant& c = *h; if(c.toList().size() != 2 || c.toList().front().toInt() != 1) vf_failf("C09:content", "shared list changed under a reader"); delete h; return 0; }
+// the same three roles on the other payload kinds: every mutable accessor (toMap, toArray, toString) has its own clone-on-write path
+static int g_kind;   // 1 map, 2 array, 3 string
+static int kindSize(const Variant& c) { return g_kind == 1 ? (int)c.toMap().size() : g_kind == 2 ? (int)c.toArray().size() : (int)c.toString().length(); }
+static uint kindCopyDrop(void* p) { Variant* h = (Variant*)p; { Variant c(*h); Variant d; d = c; const Variant& r = d; if(kindSize(r) != 2) vf_failf("C09:content", "copy of the shared payload has size %d", kindSize(r)); } delete h; return 0; }
+static uint kindMutate(void* p)
+{
+  Variant* h = (Variant*)p;
+  if(g_kind == 1) h->toMap().append(String("k3", 2), Variant(7));
+  else if(g_kind == 2) h->toArray().append(Variant(7));
+  else h->toString().append('z');
+  const Variant& r = *h;
+  if(kindSize(r) != 3) vf_failf("C09:content", "mutated payload has size %d, expected 3", kindSize(r));
+  delete h; return 0;
+}
+static void scenVariantKind(int kind)
+{
+  g_kind = kind;
+  vf_heap_baseline();
+  {
+    Variant* base = new Variant();
+    if(kind == 1) { base->toMap().append(String("k1", 2), Variant(1)); base->toMap().append(String("k2", 2), Variant(String("s", 1))); }
+    else if(kind == 2) { base->toArray().append(Variant(1)); base->toArray().append(Variant(String("s", 1))); }
+    else *base = String("ab", 2);
+    for(int i = 0; i < 3; ++i) hv[i] = new Variant(*base);
+    delete base;
+    Thread a, b, c;
+    a.start(kindCopyDrop, hv[0]); b.start(kindMutate, hv[1]); c.start(varDrop, hv[2]);
+    a.join(); b.join(); c.join();
+  }
+  if(vf_live_heap_blocks() != 0) vf_failf("C09:release", "%ld heap block(s) still allocated after the last handle was dropped", vf_live_heap_blocks());
+}
 static void scenVariant(int variant)
 {
+  if(variant >= 2) { scenVariantKind(variant - 1); return; }
   vf_heap_baseline();
   {
     Variant* base = new Variant();
@@ -121,7 +153,7 @@ static void scenXml(int variant)
 }
 
 struct Scen { const char* name; void (*fn)(int); int variants; };
-static const Scen SCEN[] = {{"string", scenString, 3}, {"variant", scenVariant, 2}, {"ptr", scenPtr, 2}, {"xml", scenXml, 2}};
+static const Scen SCEN[] = {{"string", scenString, 3}, {"variant", scenVariant, 5}, {"ptr", scenPtr, 2}, {"xml", scenXml, 2}};
 extern "C" int vf_scenario_count(void) { return (int)(sizeof(SCEN) / sizeof(*SCEN)); }
 extern "C" const char* vf_scenario_name(int id) { return SCEN[id].name; }
 extern "C" int vf_scenario_variants(int id) { return SCEN[id].variants; }
